@@ -17,6 +17,8 @@ lifts it to every declaration kind of `Idl.g4`, to nested namespaces and to whol
 
 The main theorems are collected at the end of the file.
 -/
+set_option linter.unusedSimpArgs false
+
 namespace Pydjinni.Front
 
 /-! ## generic helpers -/
@@ -2365,5 +2367,187 @@ theorem flags_parse_iff_print (fuel : Nat) (toks rest : List Token) (n : String)
     exact List.append_cancel_right this
   · intro h
     exact flags_roundtrip n c items toks rest fuel h hfuel
+
+/-! # Non-vacuity: the hypotheses are met by real lexer output -/
+
+/-- a plain, argument-free, non-optional data type -/
+def ty (n : String) : TyShape := .mk n false [] false
+
+def exIfaceSrc : String :=
+"# doc
+i = main interface +cpp -java {
+  # m
+  static const async m(a: i32, b: list<x.t?>) throws e1, e2 -> bool;
+  property p: i32?;
+  n() throws;
+}"
+
+def exIface : DeclShape :=
+  .interface "i" ["# doc"] true ["+cpp", "-java"] [
+    .m ⟨"m", true, true, true, ⟨[⟨"a", ty "i32"⟩, ⟨"b", .mk "list" false [.mk "x.t" true [] true] false⟩],
+          some [ty "e1", ty "e2"], some (ty "bool")⟩, ["# m"]⟩,
+    .p ⟨"p", .mk "i32" false [] true, []⟩,
+    .m ⟨"n", false, false, false, ⟨[], some [], none⟩, []⟩]
+
+/-- the real lexer produces exactly the printing of `exIface` -/
+theorem exIface_lex : (lex exIfaceSrc).map (fun ts => ts.map (·.tk)) = some (printDecl exIface) := by
+  decide +kernel
+
+/-- running the model parser on the lexer output returns the (erased) shape and consumes everything -/
+example : (lex exIfaceSrc).bind (fun ts => (content ts.length ts).bind
+      (fun (c, r) => c.shape?.map (fun s => (s, r.length)))) = some (.decl exIface.erase, 0) := by
+  decide +kernel
+
+/-- `decl_roundtrip` instantiated on the lexer output: all its hypotheses hold -/
+example : ∀ toks, lex exIfaceSrc = some toks →
+    ∃ x, content toks.length (toks ++ []) = some (.decl x, []) ∧ x.shape? = some exIface.erase := by
+  intro toks h
+  have hk : toks.map (·.tk) = printDecl exIface := by
+    have := exIface_lex; rw [h] at this; simpa using this
+  exact decl_roundtrip exIface toks [] toks.length hk trivial (Nat.le_refl _)
+
+def exSmallSrc : String :=
+"@import \"x.idl\"
+namespace a.b {
+  e = enum { # c
+    a; }
+  r = record +cpp { f: list<i32>; } deriving(eq)
+  namespace c { g = flags { x; y = all; } }
+}
+f = function -java (x: i32) -> bool;
+d = error { e1; e2(a: i32 b: string); }"
+
+def exSmall : FileShape :=
+  { loads := [⟨true, "\"x.idl\""⟩],
+    contents := [
+      .ns "a.b" true [] [
+        .decl (.enum "e" [] [⟨"a", ["# c"]⟩]),
+        .decl (.record "r" [] ["+cpp"] [⟨"f", .mk "list" false [ty "i32"] false, []⟩] (some ["eq"])),
+        .ns "c" false [] [.decl (.flags "g" [] [⟨"x", none, []⟩, ⟨"y", some "all", []⟩])]],
+      .decl (.function "f" [] (some ["-java"]) ⟨[⟨"x", ty "i32"⟩], none, some (ty "bool")⟩),
+      .decl (.error "d" [] [⟨"e1", [], []⟩, ⟨"e2", [⟨"a", ty "i32"⟩, ⟨"b", ty "string"⟩], []⟩])] }
+
+theorem exSmall_lex : (lex exSmallSrc).map (fun ts => ts.map (·.tk)) = some (printFile exSmall) := by
+  decide +kernel
+
+/-- `text_roundtrip` instantiated: the source text parses to a file of shape `exSmall` -/
+example : ∃ file, parseText exSmallSrc = some file ∧ file.shape? = some exSmall.erase := by
+  have h := exSmall_lex
+  cases hl : lex exSmallSrc with
+  | none => simp [hl] at h
+  | some toks =>
+    rw [hl] at h
+    exact text_roundtrip exSmall exSmallSrc toks hl (by simpa using h)
+
+/-- the follow condition of `record_roundtrip` matters: the printing of a record *without* `deriving`
+    followed by `deriving ( eq )` is read as a record *with* `deriving` -/
+example : (lex "r = record { } deriving(eq)").bind (fun ts => (content ts.length ts).bind
+      (fun (c, r) => c.shape?.map (fun s => (s, r.length)))) =
+    some (.decl (.record "r" [] [] [] (some ["eq"])), 0) ∧
+    printRecord "r" [] [] [] none ++ [Tk.kw "deriving", Tk.kw "(", Tk.id "eq", Tk.kw ")"] =
+      printRecord "r" [] [] [] (some ["eq"]) := by
+  decide +kernel
+
+/-- why inline function types are excluded from the shapes: `() throws () -> r` is the printing of
+    two different signatures (throws `[()]`, returns `r` / throws `[() -> r]`, returns nothing); the
+    parser (like ANTLR) picks the second -/
+example : (parseText "f = () throws () -> r;").map (fun f => match f.contents with
+      | [.decl (.function _ _ (.mk _ _ [] (some [.fn (.mk _ _ [] none (some _)) _]) none) _)] => true
+      | _ => false) = some true := by
+  decide +kernel
+
+/-! the same on a larger file exercising every construct (tests: `#guard` evaluates with the
+    compiler, not the kernel) -/
+
+def exFileSrc : String :=
+"@import \"a.pydjinni\"
+@extern \"b.yaml\"
+# the namespace
+namespace a.b {
+  # colours
+  color = enum {
+    # warm
+    red;
+    green;
+  }
+  perm = flags { r; w; rw = all; }
+  # a record
+  rec = record +cpp -java {
+    # field doc
+    x: map<string, list<a.b.t?>>;
+    y: i32;
+  } deriving(eq, ord)
+  plain = record { }
+  namespace inner {
+    iface = main interface +cpp {
+      # m doc
+      static const async m(a: i32, b: list<string>) throws e1, x.e2 -> bool;
+      property p: i32?;
+      n();
+      t() throws;
+    }
+  }
+  cb = function +cpp (x: i32) -> bool;
+  cb2 = (x: i32, y: string) throws e;
+  err = error {
+    # code doc
+    a;
+    b(x: i32 y: string);
+  }
+}
+top = enum { }
+"
+
+def exFile : FileShape :=
+  { loads := [⟨true, "\"a.pydjinni\""⟩, ⟨false, "\"b.yaml\""⟩],
+    contents := [
+      .ns "a.b" true ["# the namespace"] [
+        .decl (.enum "color" ["# colours"] [⟨"red", ["# warm"]⟩, ⟨"green", []⟩]),
+        .decl (.flags "perm" [] [⟨"r", none, []⟩, ⟨"w", none, []⟩, ⟨"rw", some "all", []⟩]),
+        .decl (.record "rec" ["# a record"] ["+cpp", "-java"]
+          [⟨"x", .mk "map" false [ty "string", .mk "list" false [.mk "a.b.t" true [] true] false] false, ["# field doc"]⟩,
+           ⟨"y", ty "i32", []⟩] (some ["eq", "ord"])),
+        .decl (.record "plain" [] [] [] none),
+        .ns "inner" false [] [
+          .decl (.interface "iface" [] true ["+cpp"] [
+            .m ⟨"m", true, true, true, ⟨[⟨"a", ty "i32"⟩, ⟨"b", .mk "list" false [ty "string"] false⟩],
+                  some [ty "e1", .mk "x.e2" true [] false], some (ty "bool")⟩, ["# m doc"]⟩,
+            .p ⟨"p", .mk "i32" false [] true, []⟩,
+            .m ⟨"n", false, false, false, ⟨[], none, none⟩, []⟩,
+            .m ⟨"t", false, false, false, ⟨[], some [], none⟩, []⟩])],
+        .decl (.function "cb" [] (some ["+cpp"]) ⟨[⟨"x", ty "i32"⟩], none, some (ty "bool")⟩),
+        .decl (.function "cb2" [] none ⟨[⟨"x", ty "i32"⟩, ⟨"y", ty "string"⟩], some [ty "e"], none⟩),
+        .decl (.error "err" [] [⟨"a", [], ["# code doc"]⟩, ⟨"b", [⟨"x", ty "i32"⟩, ⟨"y", ty "string"⟩], []⟩])],
+      .decl (.enum "top" [] [])] }
+
+
+-- test: the real lexer produces exactly the printing of `exFile`
+#guard (lex exFileSrc).map (fun ts => decide (ts.map (·.tk) = printFile exFile)) == some true
+-- test: parsing the text gives the erased shape
+#guard (parseText exFileSrc).bind File.shape? == some exFile.erase
+-- test: with arbitrary (here: all-zero) positions the result is the same
+#guard (parseFile ((printFile exFile).map fun k => { tk := k, line := 0, col := 0, len := 0, endLine := 0, endCol := 0 })).bind
+  File.shape? == some exFile.erase
+
+#print axioms decl_roundtrip
+#print axioms enum_roundtrip
+#print axioms flags_roundtrip
+#print axioms record_roundtrip
+#print axioms interface_roundtrip
+#print axioms function_roundtrip
+#print axioms errorDomain_roundtrip
+#print axioms method_roundtrip
+#print axioms property_roundtrip
+#print axioms errCode_roundtrip
+#print axioms content_roundtrip
+#print axioms file_roundtrip
+#print axioms text_roundtrip
+#print axioms printFile_injective
+#print axioms enum_sound
+#print axioms flags_sound
+#print axioms enum_parse_iff_print
+#print axioms flags_parse_iff_print
+#print axioms exIface_lex
+#print axioms exSmall_lex
 
 end Pydjinni.Front
